@@ -66,9 +66,9 @@ func emitSpecs(c *ctx, forLexing bool) []emitSpec {
 	add("classes", "grammar classes;\nHEX = /0x[[:xdigit:]]+/\nWORD = /_\\w+/\nNONSP = /![^\\s]+/\nANY = /\\?./\nUP = /[[:upper:]][[:lower:]]*/\nstart = {HEX | WORD | NONSP | ANY | UP};\n")
 	add("ranges", "grammar ranges;\nAA = /[\\x20-\\x2F]+/\nBB = /[\\x5B-\\x60]/\nCC = /\\x7E\\x7F?/\nDD = /[^\\x01-\\x7E]/\nstart = {AA | BB | CC | DD};\n")
 	r := c.rng("emit")
-	n := c.n(6, 400)
+	n := c.n(6, 2000)
 	if forLexing {
-		n = c.n(4, 250)
+		n = c.n(4, 1200)
 	}
 	for i := 0; i < n; i++ {
 		g := genWellFormedSpec(r, wfOpts{nNT: 1, nTok: 1 + r.intn(4), nStr: 2 + r.intn(8), nExtraRules: 0, nDirectives: 0, depth: 1})
